@@ -166,6 +166,7 @@ fn manager(family: String, work: Arc<Mutex<Receiver<(u64, String)>>>, opts: Arc<
     let mut inflight: VecDeque<(u64, String)> = VecDeque::new();
     let mut work_done = false;
     let mut last_progress = Instant::now();
+    let mut cpu_at_progress: u64 = 0;
     loop {
         // Fill the window.
         while !work_done && inflight.len() < WINDOW {
@@ -191,6 +192,7 @@ fn manager(family: String, work: Arc<Mutex<Receiver<(u64, String)>>>, opts: Arc<
                 Ok((idx, line)) => {
                     if inflight.is_empty() {
                         last_progress = Instant::now();
+                        cpu_at_progress = crate::util::proc_tree_cpu_ms(run.child.id()).unwrap_or(0);
                     }
                     if let Some(stdin) = run.child.stdin.as_mut() {
                         let _ = stdin.write_all(line.as_bytes());
@@ -211,12 +213,27 @@ fn manager(family: String, work: Arc<Mutex<Receiver<(u64, String)>>>, opts: Arc<
             }
             continue;
         }
+        // The limit is a CPU-time limit for a worker that is computing and a wall-clock limit for one that is idle:
+        // on a busy machine a computing worker gets up to eight times the limit in wall-clock time.
         let deadline = last_progress + Duration::from_millis(opts.timeout_ms);
         let wait = deadline.saturating_duration_since(Instant::now());
-        let ev = run.rx.recv_timeout(wait);
+        let mut ev = run.rx.recv_timeout(wait);
+        while matches!(ev, Err(RecvTimeoutError::Timeout)) {
+            let wall = last_progress.elapsed().as_millis() as u64;
+            let cpu = crate::util::proc_tree_cpu_ms(run.child.id()).map(|c| c.saturating_sub(cpu_at_progress));
+            let give_up = match cpu {
+                None => true,
+                Some(c) => wall >= 8 * opts.timeout_ms || c >= opts.timeout_ms || c * 32 < wall,
+            };
+            if give_up {
+                break;
+            }
+            ev = run.rx.recv_timeout(Duration::from_millis(500));
+        }
         match ev {
             Ok(FromChild::Line(l)) => {
                 last_progress = Instant::now();
+                cpu_at_progress = crate::util::proc_tree_cpu_ms(run.child.id()).unwrap_or(0);
                 let (idx, case_line) = inflight.pop_front().unwrap();
                 let v: Value = serde_json::from_str(&l).unwrap_or(json!({"f": {"kind": "bad-result", "raw": l}, "n": false, "k": 0}));
                 let mut s = summary.lock().unwrap();
@@ -293,6 +310,7 @@ fn manager(family: String, work: Arc<Mutex<Receiver<(u64, String)>>>, opts: Arc<
                 }
                 run = spawn_worker(&family);
                 last_progress = Instant::now();
+                cpu_at_progress = 0;
                 if let Some(stdin) = run.child.stdin.as_mut() {
                     for (_, line) in inflight.iter() {
                         let _ = stdin.write_all(line.as_bytes());
